@@ -392,3 +392,62 @@ M2('c04-accept-built-by-none-default-factory', 'C04', 'R8', [
             return '*/*'
 """, 'new': """    accept: Optional[str] = asgi_helpers._header_property('Accept')
 """}])
+
+# ---- wave 6: R2 selection read semantically (any shape other than the plain MRO loop is evaluated on model hierarchies);
+#      R4 (g) the text put into the XML / JSON error document is the field value itself
+_FIND_OLD = """        for exc in type(ex).__mro__[:-1]:
+            handler = self._error_handlers.get(exc)
+
+            if handler is not None:
+                return handler
+        return None
+"""
+M('c04-find-most-derived-by-mro-length', 'C04', 'R2', 'falcon/app.py', _FIND_OLD,
+  """        handlers = self._error_handlers
+        matches = handlers.keys() & type(ex).__mro__[:-1]
+        if matches:
+            return handlers[max(matches, key=lambda exc: len(exc.__mro__))]
+        return None
+""")
+M('c04-find-any-member-of-intersection', 'C04', 'R2', 'falcon/app.py', _FIND_OLD,
+  """        for exc in set(type(ex).__mro__) & self._error_handlers.keys():
+            return self._error_handlers[exc]
+        return None
+""")
+M('c04-find-in-registration-order', 'C04', 'R2', 'falcon/app.py', _FIND_OLD,
+  """        for exc, handler in self._error_handlers.items():
+            if isinstance(ex, exc):
+                return handler
+        return None
+""")
+M('c04-find-most-registered-ancestors', 'C04', 'R2', 'falcon/app.py', _FIND_OLD,
+  """        matches = [c for c in self._error_handlers if isinstance(ex, c)]
+        if not matches:
+            return None
+        return self._error_handlers[max(matches, key=lambda c: sum(issubclass(c, o) for o in matches))]
+""")
+M('c04-find-next-over-sorted-by-name', 'C04', 'R2', 'falcon/app.py', _FIND_OLD,
+  """        mro = sorted(type(ex).__mro__[:-1], key=lambda c: c.__name__)
+        return next((self._error_handlers[c] for c in mro if c in self._error_handlers), None)
+""")
+
+_XML_IMPORT = "import xml.etree.ElementTree as et\n"
+M2('c04-xml-strips-supplementary-planes', 'C04', 'R4', [
+    {'file': 'falcon/http_error.py', 'old': _XML_IMPORT,
+     'new': _XML_IMPORT + "from functools import partial\nimport re\n\n_XML_INVALID_CHARS = re.compile('[^\\t\\n\\r\\x20-\\ud7ff\\ue000-\\ufffd]')\n"},
+    {'file': 'falcon/http_error.py', 'old': "        et.SubElement(error_element, 'title').text = self.title\n",
+     'new': "        clean = partial(_XML_INVALID_CHARS.sub, '')\n        et.SubElement(error_element, 'title').text = clean(self.title)\n"},
+    {'file': 'falcon/http_error.py', 'old': "et.SubElement(error_element, 'description').text = self.description",
+     'new': "et.SubElement(error_element, 'description').text = clean(self.description)"},
+    {'file': 'falcon/http_error.py', 'old': "et.SubElement(link_element, key).text = self.link[key]",
+     'new': "et.SubElement(link_element, key).text = clean(self.link[key])"}])
+M2('c04-xml-title-ascii-only', 'C04', 'R4', [
+    {'file': 'falcon/http_error.py', 'old': _XML_IMPORT, 'new': _XML_IMPORT + "import re\n"},
+    {'file': 'falcon/http_error.py', 'old': "        et.SubElement(error_element, 'title').text = self.title\n",
+     'new': "        et.SubElement(error_element, 'title').text = re.sub('[^\\x20-\\x7e]+', '?', self.title)\n"}])
+M('c04-xml-description-truncated', 'C04', 'R4', 'falcon/http_error.py',
+  "et.SubElement(error_element, 'description').text = self.description", "et.SubElement(error_element, 'description').text = self.description[:200]")
+M('c04-xml-link-text-drops-control-whitespace', 'C04', 'R4', 'falcon/http_error.py',
+  "et.SubElement(link_element, key).text = self.link[key]",
+  "et.SubElement(link_element, key).text = self.link[key].translate({9: None, 10: None, 13: None})")
+M('c04-dict-title-stripped', 'C04', 'R4', 'falcon/http_error.py', "        obj['title'] = self.title\n", "        obj['title'] = self.title.strip()\n")
